@@ -43,13 +43,14 @@ def worker_main(argv):
         elif fam == "c10":
             # the order of the variables registered for one key is part of the arguments (it is the order of
             # registration); only the insertion order of the KEYS of the metrics mapping is permuted
+            # (a key is the SET of axes: ("a1","a2") and ("a2","a1") name the same registry entry)
             keys = []
             for e in case["reg"]:
-                if tuple(e["key"]) not in keys:
-                    keys.append(tuple(e["key"]))
+                if tuple(sorted(e["key"])) not in keys:
+                    keys.append(tuple(sorted(e["key"])))
             if variant:
                 rng.shuffle(keys)
-            case["reg"] = [e for k in keys for e in case["reg"] if tuple(e["key"]) == k]
+            case["reg"] = [e for k in keys for e in case["reg"] if tuple(sorted(e["key"])) == k]
             rec = c10.execute(case)
             obs = {k: rec["out"].get(k) for k in ("k", "dims", "shape", "flat", "cls")}
             full = None
